@@ -24,7 +24,8 @@
 (***************************************************************************)
 EXTENDS CmdServent, Integers, Json, IOUtils
 
-CONSTANT Slack   \* ms granted on top of the response timeout for "completes within its timeout"
+CONSTANTS Slack,     \* ms granted on top of the response timeout for "completes within its timeout"
+          PromptMin  \* ms: least slack for "every target is handed the command promptly"
 
 Trace == ndJsonDeserialize(IOEnv.TRACE_FILE)
 
@@ -33,7 +34,8 @@ VARIABLES l,      \* next line of Trace
           scn,    \* current scenario id
           proph,  \* first callback value per command as recorded (from the Reset line)
           stuck,  \* tokens of the ProcessResponse calls that never returned (from the Reset line)
-          msb,    \* monitor: <<c,t>> -> line at which SendFunc was entered
+          mto,    \* monitor: response timeout (ms) given to the commands of this run (from the Reset line)
+          msb,    \* monitor: <<c,t>> -> [l, t]: line and time at which SendFunc was entered
           mse,    \* monitor: <<c,t>> -> [t, ok] SendFunc about to return
           mpr,    \* monitor: sequence of ProcessResponse calls [id, snd, tok, lc, lr, tr, dead] (lines, time)
           mcb,    \* monitor: c -> number of callback values so far
@@ -41,7 +43,7 @@ VARIABLES l,      \* next line of Trace
           mtg,    \* monitor: targets per command of this run (from the Reset line)
           nviol   \* number of soft violations so far
 
-tvars == <<l, mode, scn, proph, stuck, msb, mse, mpr, mcb, menq, mtg, nviol>>
+tvars == <<l, mode, scn, proph, stuck, mto, msb, mse, mpr, mcb, menq, mtg, nviol>>
 monvars == <<msb, mse, mpr, mcb, menq, mtg>>
 allvars == <<vars, tvars>>
 
@@ -209,18 +211,35 @@ InTimeReplyWins(c) ==
     LET S == PRsFor(c, t) IN
     (S # {} /\ P(c, t) \in DOMAIN mse /\ mse[P(c, t)].ok /\ P(c, t) \in DOMAIN msb) =>
       LET f == CHOOSE i \in S : \A j \in S : i <= j IN
-      ( /\ mpr[f].lc > msb[P(c, t)]              \* handed in after SendFunc was entered (call registered)
-        /\ mpr[f].lr > 0 /\ mpr[f].tr < mse[P(c, t)].t + TO
+      ( /\ mpr[f].lc > msb[P(c, t)].l            \* handed in after SendFunc was entered (call registered)
+        /\ mpr[f].lr > 0 /\ mpr[f].tr < mse[P(c, t)].t + mto
         /\ \A j \in S \ {f} : mpr[j].lc > mpr[f].lr )
       => (HasEntry(t) /\ Entry(t).k = "reply" /\ Entry(t).m.tok = mpr[f].tok)
 
 AllSent(c) == \A t \in Tg(c) : P(c, t) \in DOMAIN mse
 LastSend(c) == LET S == {mse[P(c, t)].t : t \in Tg(c)} IN CHOOSE x \in S : \A y \in S : x >= y
-BoundedRec(c) == (Tg(c) # {} /\ AllSent(c)) => Now <= LastSend(c) + TO + Slack
+\* sends of command c recorded so far
+SentOf(c) == {p \in DOMAIN msb : p[1] = c}
+FirstBegin(c) == LET S == {msb[p].t : p \in SentOf(c)} IN CHOOSE x \in S : \A y \in S : x <= y
+\* longest time the environment kept a SendFunc of c from returning
+MaxHold(c) == LET S == {mse[p].t - msb[p].t : p \in {q \in SentOf(c) : q \in DOMAIN mse}} \cup {0} IN
+              CHOOSE x \in S : \A y \in S : x >= y
+\* the command completes within its response timeout: counted from the latest return of a SendFunc,
+\* and from the moment the first target was handed the command (plus what the transport took)
+BoundedRec(c) ==
+  (Tg(c) # {} /\ AllSent(c)) =>
+     /\ Now <= LastSend(c) + mto + Slack
+     /\ Now <= FirstBegin(c) + MaxHold(c) + mto + Slack
+\* every target is handed the command promptly, however many targets there are: nothing in the
+\* implementation may make a target wait for another target's answer or timeout.  Judged with a
+\* slack of a whole response timeout (and at least PromptMin ms): SendFunc is entered for every
+\* target less than that after it was entered for the first one.
+PromptLimit == IF mto >= PromptMin THEN mto ELSE PromptMin
+PromptSendRec(c) == SentOf(c) # {} => Now - FirstBegin(c) < PromptLimit
 TimeoutNotEarlyRec(c) ==
   \A j \in DOMAIN Line.res :
     (Line.res[j].k = "timeout" /\ P(c, Line.res[j].t) \in DOMAIN mse)
-       => Now >= mse[P(c, Line.res[j].t)].t + TO
+       => Now >= mse[P(c, Line.res[j].t)].t + mto
 
 MonitorStep ==
   LET a == Line.ev IN
@@ -228,8 +247,9 @@ MonitorStep ==
          /\ menq' = IF Line.ok THEN menq \cup {Line.c} ELSE menq
          /\ UNCHANGED <<msb, mse, mpr, mcb, mtg, nviol>>
     [] a = "SendBegin" ->
-         /\ msb' = PutF(msb, P(Line.c, Line.tgt), l)
-         /\ UNCHANGED <<mse, mpr, mcb, menq, mtg, nviol>>
+         /\ msb' = PutF(msb, P(Line.c, Line.tgt), [l |-> l, t |-> Now])
+         /\ nviol' = nviol + Soft("PromptSend", PromptSendRec(Line.c), <<Line.c, Line.tgt, Now>>)
+         /\ UNCHANGED <<mse, mpr, mcb, menq, mtg>>
     [] a = "SendEnd" ->
          /\ mse' = PutF(mse, P(Line.c, Line.tgt), [t |-> Now, ok |-> Line.ok])
          /\ UNCHANGED <<msb, mpr, mcb, menq, mtg, nviol>>
@@ -278,7 +298,7 @@ TVisible ==
   /\ ~ENABLED Hidden
   /\ Visible
   /\ MonitorStep
-  /\ l' = l + 1 /\ UNCHANGED <<mode, scn, proph, stuck>>
+  /\ l' = l + 1 /\ UNCHANGED <<mode, scn, proph, stuck, mto>>
 
 OkStep == TAdvance \/ THidden \/ TVisible
 
@@ -287,12 +307,12 @@ TStepDrift ==
   /\ ~ENABLED OkStep
   /\ PrintT(<<"DRIFT", scn, l, Line.ev>>)
   /\ MonitorStep
-  /\ mode' = "lost" /\ l' = l + 1 /\ UNCHANGED <<vars, scn, proph, stuck>>
+  /\ mode' = "lost" /\ l' = l + 1 /\ UNCHANGED <<vars, scn, proph, stuck, mto>>
 
 TStepLost ==
   /\ l <= Len(Trace) /\ IsStep /\ mode = "lost"
   /\ MonitorStep
-  /\ l' = l + 1 /\ UNCHANGED <<vars, mode, scn, proph, stuck>>
+  /\ l' = l + 1 /\ UNCHANGED <<vars, mode, scn, proph, stuck, mto>>
 
 TgOf(c) == IF c \in DOMAIN Line.tg THEN Range(Line.tg[c]) ELSE {}
 
@@ -308,7 +328,7 @@ TReset ==
   /\ delivered' = [c \in Cmds |-> 0]
   /\ mode' = (IF Line.mode = "sched" THEN "ok" ELSE "lost")
   /\ scn' = Line.scn /\ proph' = Line.proph /\ stuck' = Range(Line.stuck)
-  /\ msb' = <<>> /\ mse' = <<>> /\ mpr' = <<>> /\ mcb' = <<>> /\ menq' = {}
+  /\ mto' = Line.to /\ msb' = <<>> /\ mse' = <<>> /\ mpr' = <<>> /\ mcb' = <<>> /\ menq' = {}
   /\ mtg' = [c \in DOMAIN Line.tg |-> Range(Line.tg[c])]
   /\ l' = l + 1 /\ UNCHANGED nviol
 
@@ -321,7 +341,7 @@ TraceInit ==
   /\ began = [c \in Cmds |-> 0] /\ clock = 0
   /\ delivered = [c \in Cmds |-> 0]
   /\ l = 1 /\ mode = "lost" /\ scn = -1 /\ proph = <<>> /\ stuck = {}
-  /\ msb = <<>> /\ mse = <<>> /\ mpr = <<>> /\ mcb = <<>> /\ menq = {} /\ mtg = <<>>
+  /\ mto = TO /\ msb = <<>> /\ mse = <<>> /\ mpr = <<>> /\ mcb = <<>> /\ menq = {} /\ mtg = <<>>
   /\ nviol = 0
 
 TraceNext == TAdvance \/ THidden \/ TVisible \/ TStepDrift \/ TStepLost \/ TReset
